@@ -84,18 +84,20 @@ impl Ctl {
     }
     /// alternative to take at the next choice point of `kind` (does not consume it)
     fn peek(&self, kind: &str) -> usize {
+        // a check-sat peeks for a `model` alternative before it is known whether the answer is sat
+        // (only then is the choice point consumed): a scheduled entry of another kind is not for us
         match self.schedule.get(&self.next_choice) {
-            Some((k, alt)) => {
-                if k != kind {
-                    eprintln!("DIVERGENCE: choice point {} is of kind {kind}, schedule expected {k}", self.next_choice);
-                    std::process::exit(97);
-                }
-                *alt
-            }
-            None => *self.defaults.get(kind).unwrap_or(&0),
+            Some((k, alt)) if k == kind => *alt,
+            _ => *self.defaults.get(kind).unwrap_or(&0),
         }
     }
     fn consume(&mut self, kind: &str, arity: usize, alt: usize) {
+        if let Some((k, _)) = self.schedule.get(&self.next_choice)
+            && k != kind
+        {
+            eprintln!("DIVERGENCE: choice point {} is of kind {kind}, schedule expected {k}", self.next_choice);
+            std::process::exit(97);
+        }
         self.append_trace(&format!("{} {} {} {}", self.next_choice, kind, arity, alt));
         self.next_choice += 1;
     }
